@@ -37,7 +37,7 @@ RULE = ("(a) function level: every modelled cgen function against its extracted 
         "(d) the shipped templates' StateMachineThread / Verbose tags. non-trivial = inside the grammar and at least one tag assigned or "
         "defaulted, or a block present; distinct = distinct (template, assignment, generator)")
 ASSUMPTIONS = [
-    "templates of in_grammar17: literal text, tag names, defaults without '<' '>', names without '='; every line is classified by the "
+    "templates of in_grammar17: tag names, defaults without '<' '>', names without '='; literal text without \"<<<\" that does not begin with '<'; every line is classified by the "
     "engine's substring tests as what the syntax says (no line with a tag also contains IF / ELSE / FOR_BEGIN / FOR_END / a block keyword); "
     "no nested IF, no FOR inside IF bodies in the syntax; no run of blank lines (C16's clause); no first-filter tag (<<<NAMESPACE>>> ...)",
     "assignments of wf_assign17: values without '<' '>'; FOR headers resolve to a list with a comma or a count >= 1; substituted lines "
